@@ -258,6 +258,7 @@ func runC15(cases string, res *Result) {
 	c15CompiledFiles(cases, res)
 	c15LoadedAheadOfTime(cases, res)
 	c15EmptySources(cases, res)
+	c15RewrittenWithinTheSecond(cases, res)
 	// the two loader kinds must be what the engine distinguishes
 	if _, ok := twig.Loader(&c15TSLoader{}).(twig.TimestampAwareLoader); !ok {
 		panic("c15TSLoader does not implement twig.TimestampAwareLoader")
